@@ -40,6 +40,13 @@
 (*   MarkerMode "v0230"   one marker for every configuration  (faithful;   *)
 (*                        TLC rejects I2)                                  *)
 (*              "confkey" the marker encodes astKey(conf)                  *)
+(*              "observed" the marker is whatever function of the          *)
+(*                        configuration the tree under test was OBSERVED   *)
+(*                        to compute on empty caches, given as the         *)
+(*                        partition MarkerClasses of the configurations    *)
+(*                        (same class = same file name).  I2 fails exactly *)
+(*                        for the pairs in StalePairs: same class,         *)
+(*                        different astKey                                 *)
 (*   PatchMode  "unlocked" the global is assigned without any lock, by     *)
 (*                        hooked imports only, and reset to the original   *)
 (*                        on exit  (faithful; TLC rejects I1 with two      *)
@@ -58,7 +65,8 @@ CONSTANTS Modules,      \* module names (one module per package)
           Threads,      \* thread ids inside a run
           MaxSrc,       \* source versions 1..MaxSrc
           MaxRuns,      \* interpreter runs
-          MarkerMode,   \* "v0230" | "confkey"
+          MarkerMode,   \* "v0230" | "confkey" | "observed"
+          MarkerClasses,\* "observed" only: set of sets of configuration names sharing a marker
           PatchMode,    \* "unlocked" | "locked" | "private" | "leaky"
           Nest          \* BOOLEAN: nested unhooked import inside a compiling hooked import
 
@@ -75,7 +83,8 @@ AstKey(c) ==
     [] c = "ffirst"  -> K(TRUE,  "FIRST", "LAST")     \* claw_decor_place_func=FIRST
     [] c = "flast"   -> K(TRUE,  "LAST",  "LAST")     \* claw_decor_place_func=LAST
     [] c = "tfirst"  -> K(TRUE,  "LBDH",  "FIRST")    \* claw_decor_place_type=FIRST
-AllConfs == {"default", "vt", "nopep", "ffirst", "flast", "tfirst"}
+    [] c = "tlbdh"   -> K(TRUE,  "LBDH",  "LBDH")     \* claw_decor_place_type=LAST_BEFORE_DECOR_HOSTILE
+AllConfs == {"default", "vt", "nopep", "ffirst", "flast", "tfirst", "tlbdh"}
 NoKey == [p526 |-> FALSE, pf |-> "-", pt |-> "-", dflt |-> FALSE]
 
 PlainBody == [hooked |-> FALSE, key |-> NoKey]
@@ -86,8 +95,19 @@ HookedBody(c) == [hooked |-> TRUE, key |-> AstKey(c)]
 Want(c) == IF c = Off THEN PlainBody ELSE HookedBody(c)
 
 \* ---- file names ---------------------------------------------------------------------
-PlainTag == [marked |-> FALSE, key |-> NoKey]
-MarkerOf(c) == [marked |-> TRUE, key |-> IF MarkerMode = "confkey" THEN AstKey(c) ELSE NoKey]
+\* a tag identifies a file name: unmarked, or marked with an identifier of the marker string
+\* (a canonical configuration name of the group of configurations that share the marker)
+PlainTag == [marked |-> FALSE, id |-> "-"]
+KeyRep(c) == CHOOSE r \in AllConfs : AstKey(r) = AstKey(c)
+ClassOf(c) == CHOOSE S \in MarkerClasses : c \in S
+ObsRep(c) == CHOOSE r \in ClassOf(c) : TRUE
+MarkerOf(c) == [marked |-> TRUE,
+                id |-> CASE MarkerMode = "confkey"  -> KeyRep(c)
+                         [] MarkerMode = "observed" -> ObsRep(c)
+                         [] OTHER                   -> "bt"]
+\* declarative: the pairs (written under, read under) for which a cache is reused although the
+\* transformation differs
+StalePairs == { p \in Confs \X Confs : MarkerOf(p[1]) = MarkerOf(p[2]) /\ AstKey(p[1]) # AstKey(p[2]) }
 Markers == { MarkerOf(c) : c \in Confs }
 WantTag(c) == IF c = Off THEN PlainTag ELSE MarkerOf(c)
 
@@ -242,7 +262,7 @@ I2 == phase = "run" =>
 I3 == phase = "idle" => cfs = PlainTag
 
 \* tables for the binding (emitted once by a generated module: ASSUME PrintT(ToJson(Tables)))
-Tables == [want        |-> [c \in AllConfs \cup {Off} |-> Want(c)],
-           tag_v0230   |-> [c \in AllConfs \cup {Off} |-> IF c = Off THEN PlainTag ELSE [marked |-> TRUE, key |-> NoKey]],
-           tag_confkey |-> [c \in AllConfs \cup {Off} |-> IF c = Off THEN PlainTag ELSE [marked |-> TRUE, key |-> AstKey(c)]]]
+Tables == [want  |-> [c \in AllConfs \cup {Off} |-> Want(c)],
+           tag   |-> [c \in Confs \cup {Off} |-> WantTag(c)],
+           stale |-> StalePairs]
 =============================================================================
